@@ -210,7 +210,7 @@ VF_SECTION(interleavings, 16, 16, 300) {
     if (!r.take()) continue;
     r.note(fn_name[c.fn]);
     if (r.wants_desc()) r.desc(c.str());
-    auto st = vfs::explore([&](const std::vector<int>& p) { return run_cfg(c, p); }, c.bound, max_sched, [] { return g_outcome; });
+    auto st = vfs::explore([&](const std::vector<int>& p) { r.beat(); return run_cfg(c, p); }, c.bound, max_sched, [] { return g_outcome; });
     if (st.outcomes.size() > r.counters["max_distinct_outcomes_one_config"]) r.counters["max_distinct_outcomes_one_config"] = st.outcomes.size();
     if (st.outcomes.size() > 1) r.counters["configs_with_more_than_one_outcome"]++;
     r.states += st.states;
